@@ -230,6 +230,64 @@ def main(tier: str) -> int:
         traces.append({"id": len(cases) - 1, "rows": terms.jrows_of_frames(frames), "mode": "seq", "prefix": True,
                        "exp": [terms.jitem(terms.norm_item(it)) for it in accepted]})
         n_rejecting += 1
+    # a binding the serializer cannot encode (a plain str where an IRI object belongs, a non-str label) AFTER a good one, declarations on: stream_frames raises;
+    # the caller catches it and goes on writing statements that share the good binding's namespace on the same stream
+    for quads in (False, True):
+        for badness in ("iri-is-a-str", "label-is-not-a-str"):
+            gs_ = terms.generic_classes()
+            cfg_b = impl.default_cfg(integ="generic", sclass=("quad" if quads else "triple"), ltype=(2 if quads else 1), delimited=True, frame_size=10**6, preset=(16, 8, 0), nsdecl=True)
+            stream = impl.make_stream(cfg_b)
+            sink = gs_.GenericStatementSink()
+            sink.bind("good", gs_.IRI("http://good.example/ns#"))
+            if badness == "iri-is-a-str":
+                sink.bind("bad", "http://bad.example/")
+            else:
+                sink.bind(42, gs_.IRI("http://bad.example/"))
+            I2 = lambda x: ("iri", x)  # noqa: E731
+            first_st = (I2("http://good.example/ns#a"), I2("http://good.example/ns#p"), ("lit", "v", "", "")) + ((("dg",),) if quads else ())
+            sink.add(terms.stmt_to_generic(first_st))
+            frames_b, accepted_b, raised_b = [], [], []
+            from pyjelly.integrations.generic import serialize as gser_b  # noqa: PLC0415
+            try:
+                for fr in gser_b.stream_frames(stream, sink):
+                    frames_b.append(fr)
+                accepted_b += [("ns", "good", "http://good.example/ns#"), first_st]
+            except Exception as ex:  # noqa: BLE001
+                raised_b.append((0, type(ex).__name__))
+            for st in ((I2("http://good.example/ns#b"), I2("http://good.example/ns#p"), ("lit", "w", "", "")) + ((("dg",),) if quads else ()),
+                       (I2("http://other.example/x"), I2("http://good.example/ns#p"), I2("http://good.example/ns#a")) + ((I2("http://good.example/ns#g"),) if quads else ())):
+                try:
+                    tt = [writer.to_impl_term(t, "generic") for t in st]
+                    fr = stream.quad(tt) if quads else stream.triple(tt)
+                    if fr:
+                        frames_b.append(fr)
+                    accepted_b.append(st)
+                except Exception as ex:  # noqa: BLE001
+                    raised_b.append((1, type(ex).__name__))
+            last = stream.flow.to_stream_frame()
+            if last:
+                frames_b.append(last)
+            out_b = io.BytesIO()
+            for fr in frames_b:
+                impl.write_delimited(fr, out_b)
+            key = {"stream": "QuadStream" if quads else "TripleStream", "cause": "malformed-namespace-binding:" + badness, "slot": "-", "carry_on": "direct", "integ": "generic"}
+            distinct.add((key["stream"], key["cause"]))
+            fr_dec = wire.dec_stream(out_b.getvalue(), delimited=True)
+            # what was declared before the failure may or may not have reached the output: judge validity and the STATEMENTS (declarations are C14's subject)
+            st_only = [x for x in accepted_b if x[0] != "ns"]
+            cases.append({"key": key, "model_bad": None, "res": {"rejected": raised_b or [(0, "<<accepted>>")], "accepted": st_only},
+                          "replay": {"bindings": badness, "raised": raised_b, "accepted": accepted_b}})
+            rows_b = [r_ for r_ in terms.jrows_of_frames(fr_dec)]
+            traces.append({"id": len(cases) - 1, "rows": rows_b, "mode": "none", "prefix": True, "exp": []})
+            n_rejecting += 1
+            back_b = None
+            try:
+                back_b = [terms.norm_item(x) for x in impl.parse("generic", out_b.getvalue(), "flat") if x[0] != "ns"]
+            except Exception as ex:  # noqa: BLE001
+                back_b = f"{type(ex).__name__}: {str(ex)[:80]}"
+            if back_b != [terms.norm_item(x) for x in st_only]:
+                run.violation(key, f"after a namespace binding was rejected ({badness}) the caller carried on; what was written reads back as {str(back_b)[:120]}, "
+                              f"accepted were {len(st_only)} statements", {"bindings": badness, "raised": raised_b, "accepted": accepted_b})
     # GraphStream, graph by graph
     for sc, integ in [(sc, "generic") for sc in graphstream_scenarios(tier)] + [(sc, "rdflib") for sc in graphstream_scenarios(tier) if sc["cause"] != "nested"]:
         data, accepted, raised = run_graph_scenario(sc, integ)
